@@ -162,6 +162,37 @@ func TestC06Progress(t *testing.T) {
 			}
 		}
 	}
+	// acknowledgements that are late rather than lost, and stream writes that
+	// take a good part of a resend timeout: the resend starts although
+	// everything arrived, the ACKs (the expected one among them) and NACKs
+	// come in while the window is still being written again, and the
+	// goroutine the expected ACK starts may be done before the send loop
+	// begins to wait; more messages follow later
+	for _, n := range []uint8{3, 5} {
+		for _, lagMs := range []int{300, 600} {
+			for _, ackDelayMs := range []int{1100, 1700} {
+				n, lagMs, ackDelayMs := n, lagMs, ackDelayMs
+				dec := func(from string, idx int, pkt []byte, now time.Duration) vnet.Fate {
+					if from == "s" && len(pkt) == 2 && now < 6*time.Second {
+						return vnet.Fate{Copies: 1, Delay: time.Duration(ackDelayMs) * time.Millisecond}
+					}
+					return vnet.Fate{Copies: 1}
+				}
+				cfg := gbnrun.Config{N: n, Static: time.Second, Latency: 20 * time.Millisecond,
+					Decide: dec, Msgs: [2]int{int(n) + 4, 0},
+					SendLag: [2]time.Duration{time.Duration(lagMs) * time.Millisecond, 0},
+					Gap: func(ep string, id int) time.Duration {
+						if id == int(n)+1 {
+							return 9 * time.Second
+						}
+						return 0
+					}}
+				scens = append(scens, scen{map[string]any{"kind": "late-acks-slow-write", "n": int(n),
+					"staticMs": 1000, "lagMs": lagMs, "ackDelayMs": ackDelayMs, "ka": false, "latMs": 20},
+					cfg, 6 * time.Second, time.Second, false})
+			}
+		}
+	}
 	for si, sc := range scens {
 		sc := sc
 		noteCurrent(dir, sc.desc)
